@@ -241,6 +241,8 @@ def run(ctx):
                                    "uversky", seqs=[s], getfig=getfig, title=title, labels=lab1, xlim=xl, ylim=yl))
         ev.append(figure_event(ctx, plt, workdir, "SP.show_phaseDiagramPlot(getFig=True) by keyword", lambda: o.show_phaseDiagramPlot(getFig=True),
                                "phase", seqs=[s], getfig=True, title="Diagram of states", labels=[], xlim=1, ylim=1))
+        ev.append(figure_event(ctx, plt, workdir, "SP.show_uverskyPlot(getFig=True) by keyword", lambda: o.show_uverskyPlot(getFig=True),
+                               "uversky", seqs=[s], getfig=True, title="Uversky plot", labels=[], xlim=1, ylim=1))
         fmt = rng.choice(["png", "pdf", "svg"])
         ev.append(figure_event(ctx, plt, workdir, "SP.save_phaseDiagramPlot", lambda: o.save_phaseDiagramPlot(fn, label, title, leg, xl, yl, fs, fmt),
                                "phase", seqs=[s], save=True, title=title, labels=lab1, xlim=xl, ylim=yl))
